@@ -79,6 +79,35 @@ def prespawn_scripts(rng, tier):
         sf = len(lines)
         lines += gen_scripts.settle_lines(meta)
         out.append(("prespawn-early-%d" % i, lines, sf))
+    # several mappings for one client travel in one update message; the client despawned one of its pre-spawned entities before the
+    # message arrives: that server entity gets a fresh entity, the OTHER mappings of the message are still honoured
+    for i in range(n // 3):
+        nclients = rng.choice([1, 2])
+        lines = ["cfg policy=%s auth=none track=0 nclients=%d timeout=10000" % (rng.choice(["all", "black"]), nclients), "start", "sframe 0 10"]
+        for c in range(nclients):
+            lines.append("connect %d 1200" % c)
+        k = rng.choice([2, 3])
+        for pc in range(k):
+            lines.append("cop 0 prespawn %d" % pc)
+        lines.append("cframe 0")
+        for pc in range(k):
+            lines.append("sop spawn %d 1 0=%d 1=%d" % (pc + 1, rng.randrange(50), rng.randrange(50)))
+        order = list(range(k))
+        rng.shuffle(order)
+        for pc in order:
+            lines.append("sop map 0 %d %d" % (pc + 1, pc))
+        lines.append("sframe 1 16")
+        dead = rng.sample(range(k), rng.randrange(1, k))
+        for pc in dead:
+            lines.append("cop 0 despawn %d" % pc)
+        lines += ["cframe 0", "deliver 0 s2c 0 all", "cframe 0", "deliver 0 c2s 0 all"]
+        for _ in range(rng.randrange(1, 3)):
+            lines.append("sop mutate %d %d=%d" % (rng.randrange(1, k + 1), rng.randrange(2), rng.randrange(100, 200)))
+            lines.append("sframe 1 16")
+        meta = dict(connected=list(range(nclients)), events=False)
+        sf = len(lines)
+        lines += gen_scripts.settle_lines(meta)
+        out.append(("prespawn-several-%d" % i, lines, sf))
     # a pre-spawned entity that was adopted for one server entity is named again by a mapping for ANOTHER server entity in the tick
     # in which the first one is despawned / hidden / un-replicated: the message's despawn record kills the client entity before its
     # mappings are applied, so the second server entity must get a fresh entity
